@@ -281,6 +281,10 @@ fn run_call(
         }
     }
     out.insert("ctx_sets".into(), Value::Object(ctx_dump));
+    out.insert(
+        "fchars".into(),
+        json!(formulas.iter().map(|f| crate::syn::chars_of(f)).collect::<Vec<_>>()),
+    );
 
     let fs: Vec<&str> = formulas.iter().map(|s| s.as_str()).collect();
     let mut n_callbacks = 0u64;
@@ -449,4 +453,8 @@ pub fn probe(in_path: &str) -> Result<(), String> {
     }
     println!("{}", serde_json::to_string(&out).unwrap());
     Ok(())
+}
+
+pub fn build_ctx_set_pub(spec: &Value, g: &SymbolicAsyncGraph, bn: &BooleanNetwork) -> Result<GraphColoredVertices, String> {
+    build_ctx_set(spec, g, bn, &[])
 }
